@@ -20,7 +20,23 @@ thread_local! {
     };
 }
 
+#[cfg(metrics_verif)]
+thread_local! {
+    static VERIF_RNG: std::cell::Cell<Option<fn(usize) -> usize>> = std::cell::Cell::new(None);
+}
+
+/// Verification hook: replaces the thread-local PRNG draw by `f(upper)` on this thread.
+#[cfg(metrics_verif)]
+#[doc(hidden)]
+pub fn verif_set_rng(f: Option<fn(usize) -> usize>) {
+    VERIF_RNG.with(|c| c.set(f));
+}
+
 fn fastrand(upper: usize) -> usize {
+    #[cfg(metrics_verif)]
+    if let Some(f) = VERIF_RNG.with(|c| c.get()) {
+        return f(upper);
+    }
     FAST_RNG.with(|rng| {
         // SAFETY: We know it's safe to take a mutable reference since we're getting a pointer to a thread-local value,
         // and the reference never outlives the closure executing on this thread.
